@@ -32,16 +32,31 @@ var c16Cats = []string{"", "Symbol/Timeframe/AttributeGroup", "A/Symbol/Timefram
 
 func pick(r *rng.Rand, l []string) string { return l[r.Intn(len(l))] }
 
-// limitDotDot keeps at most three ".." components in a key so that no run leaves the sandbox
-// (the data root is four levels below it).
+// minDepth is the lowest level the walk over the items reaches relative to its start (” and '.' stay, '..' goes up,
+// anything else goes down).
+func minDepth(items []string) int {
+	d, lo := 0, 0
+	for _, it := range items {
+		switch it {
+		case "", ".":
+		case "..":
+			d--
+		default:
+			d++
+		}
+		if d < lo {
+			lo = d
+		}
+	}
+	return lo
+}
+
+// limitDotDot keeps every key from climbing more than three levels above the root (the data root is four levels
+// below the sandbox): surplus ".." components are replaced.
 func limitDotDot(items []string) []string {
-	n := 0
-	for i, it := range items {
-		if it == ".." {
-			n++
-			if n > 3 {
-				items[i] = "dd"
-			}
+	for i := range items {
+		if items[i] == ".." && minDepth(items[:i+1]) < -3 {
+			items[i] = "dd"
 		}
 	}
 	return items
@@ -54,7 +69,18 @@ func c16Key(r *rng.Rand, hostile bool) string {
 		cat = "Symbol/Timeframe/AttributeGroup"
 	}
 	if hostile {
-		switch r.Intn(10) {
+		switch r.Intn(12) {
+		case 10, 11: // MORE items than categories, the surplus a run of ".." long enough to climb above the root
+			if r.Bool() {
+				items = append(items, pick(r, []string{"x", "extra", "2020.bin"}))
+			}
+			n := len(items) + 1 + r.Intn(3)
+			for j := 0; j < n; j++ {
+				items = append(items, "..")
+			}
+			if r.Chance(70) {
+				cat = "Symbol/Timeframe/AttributeGroup"
+			}
 		case 8: // the symbol climbs out of the root
 			items[0] = ".."
 		case 9: // down one, up two: the category key keeps the timeframe reachable
@@ -198,8 +224,8 @@ func c16Run(raw json.RawMessage) (res Result, err error) {
 	}
 	// safety net of the sandbox: refuse keys that could climb out of it
 	for _, op := range in.Ops {
-		if strings.Count(op.Key, "..") > 3 {
-			return res, fmt.Errorf("key %q has more than three '..' (the sandbox is four levels deep)", op.Key)
+		if minDepth(strings.Split(strings.Split(op.Key, ":")[0], "/")) < -3 {
+			return res, fmt.Errorf("key %q climbs more than three levels above the root (the sandbox is four levels deep)", op.Key)
 		}
 	}
 	res.Holds = true
